@@ -155,7 +155,11 @@ fn history_then_shallow(n: usize, d: Durability, untracked: bool) {
         assert!(res.yes(), "C02: a NEVER_CHANGE memo failed shallow verification");
     }
     kani::cover!(hit);
-    kani::cover!(!hit && res.yes() && n > 0);
+    if dur_index(d) != 0 {
+        kani::cover!(!hit && res.yes() && n > 0);
+    } else {
+        kani::cover!(!hit && !res.yes());
+    }
     std::mem::forget(header);
     std::mem::forget(zalsa);
 }
